@@ -19,8 +19,13 @@ PROPERTY_FUNCS = {}    # property id -> list of contract keys
 ASSUMED_FUNCS = {}     # property id -> contracts assumed, not verified
 
 
+THOROUGH_ONLY = set()   # contract keys verified in the thorough tier only (VC generation takes minutes)
+
+
 def contract(key, **kw):
     props = kw.get('properties', ())
+    if kw.pop('thorough_only', False):
+        THOROUGH_ONLY.add(key)
     c = Contract(key, **kw)
     REGISTRY.append(c)
     for p in props:
@@ -44,7 +49,7 @@ def axioms(f):
 
 
 CONTRACT_MODULES = ['contracts.schema', 'contracts.vocab', 'contracts.k1_helpers', 'contracts.k8_validator',
-                    'contracts.k9_utils', 'contracts.k6_header', 'contracts.k2_elementlist', 'contracts.k3_element', 'contracts.k4_structure', 'contracts.k6_groups', 'contracts.k5_encoders', 'contracts.k9_datatypes', 'contracts.k9_factories', 'contracts.k10_mllp']
+                    'contracts.k9_utils', 'contracts.k6_header', 'contracts.k6_parsers', 'contracts.k2_elementlist', 'contracts.k3_element', 'contracts.k4_structure', 'contracts.k6_groups', 'contracts.k5_encoders', 'contracts.k9_datatypes', 'contracts.k9_factories', 'contracts.k10_mllp']
 
 
 def build_world(modules=None):
@@ -57,6 +62,7 @@ def build_world(modules=None):
     SCHEMA.clear()
     GLOBALS.clear()
     PROPERTY_FUNCS.clear()
+    THOROUGH_ONLY.clear()
     ASSUMED_FUNCS.clear()
     for m in (modules or CONTRACT_MODULES):
         if m in sys.modules:
@@ -107,6 +113,7 @@ def build_world(modules=None):
         ln = ex.H(st, w.field_key('RefStruct', '_len'))
         return [z3.Implies(kind == z3.StringVal('GRP'), z3.And(ref > 0, ln[ref] >= 2))]
     w.class_invariants = {'ChildEntry': childentry_inv}
+    w.thorough_only = set(THOROUGH_ONLY)
     w.property_funcs = dict(PROPERTY_FUNCS)
     w.assumed_funcs = dict(ASSUMED_FUNCS)
     from pyvc import regex
